@@ -586,7 +586,7 @@ class NpModule(object):
                   'asarray', 'array', 'can_cast', 'issubsctype', 'issubdtype', 'isrealobj', 'iscomplexobj', 'result_type',
                   'where', 'sum', 'max', 'min', 'dot', 'vdot', 'tensordot', 'array_equal', 'isfinite', 'isnan', 'any', 'all',
                   'float_power', 'copyto', 'full', 'full_like', 'promote_types', 'isclose', 'allclose', 'ndim', 'shape', 'size',
-                  'errstate', 'lib', 'swapaxes'):
+                  'errstate', 'lib', 'swapaxes', 'arange', 'diff'):
             t[n] = ip.Builtin('np.' + n, getattr(self, 'f_' + n))
         t['linalg'] = I.PyModule('numpy.linalg', {'norm': ip.Builtin('np.linalg.norm', self.f_norm)})
 
@@ -736,6 +736,10 @@ class NpModule(object):
 
     def f_array(self, I, fr, args, kwargs):
         a = unwrap(I, fr, args[0])
+        if isinstance(a, carr.CArr):
+            return carr.materialise(a) if kwargs.get('copy', True) else a
+        if getattr(fr.st, 'closure_arrays', False) and isinstance(a, (list, tuple)) and all(I.scalar_kind(x) is not None for x in a):
+            return carr.list_array(a)
         if isinstance(a, PArr):
             dt = kwargs.get('dtype')
             copy = kwargs.get('copy', True)
@@ -752,7 +756,12 @@ class NpModule(object):
         raise Unsupported('np.array of %r' % (a,))
 
     def f_can_cast(self, I, fr, args, kwargs):
-        return can_cast_same_kind(as_dtype(args[0]), as_dtype(args[1]))
+        k = I.scalar_kind(args[0])
+        if k is not None:
+            src = DT({'real': 'float64', 'int': 'int64', 'bool': 'bool', 'complex': 'complex128'}[k])
+        else:
+            src = as_dtype(args[0])
+        return can_cast_same_kind(src, as_dtype(args[1]))
 
     def f_issubsctype(self, I, fr, args, kwargs):
         return self.f_issubdtype(I, fr, args, kwargs)
@@ -818,6 +827,11 @@ class NpModule(object):
         return fr.st.reductions.reduce(fr, kind, a.buf.content, extra)
 
     def f_sum(self, I, fr, args, kwargs):
+        if isinstance(args[0], carr.CArr):
+            ax = kwargs.get('axis', args[1] if len(args) > 1 else None)
+            if ax is None:
+                raise Unsupported('np.sum of a closure array without axis')
+            return carr.sum_axis(I, fr, args[0], ax % args[0].ndim, bool(kwargs.get('keepdims', False)))
         if kwargs.get('axis') is not None or len(args) > 1:
             raise Unsupported('np.sum with axis')
         return self._reduce(I, fr, 'sum', args[0])
@@ -932,6 +946,22 @@ class NpModule(object):
         if I.scalar_kind(a) is not None:
             return 1
         raise Unsupported('np.size')
+
+    def f_arange(self, I, fr, args, kwargs):
+        a = list(args)
+        if len(a) == 1:
+            a = [0, a[0]]
+        if len(a) != 2:
+            raise Unsupported('np.arange with step')
+        dt = kwargs.get('dtype')
+        return carr.arange(a[0], a[1], as_dtype(dt) if dt is not None else None)
+
+    def f_diff(self, I, fr, args, kwargs):
+        a = args[0]
+        if not isinstance(a, carr.CArr) or kwargs.get('n', 1) != 1:
+            raise Unsupported('np.diff form')
+        ax = kwargs.get('axis', -1)
+        return carr.diff(I, fr, a, ax % a.ndim)
 
     def f_swapaxes(self, I, fr, args, kwargs):
         a = args[0]
